@@ -132,6 +132,17 @@ func (s *Store) RegisterSP(appID string, metadata []byte) (*serviceprovider.Serv
 	return sp, nil
 }
 
+// UnregisterSP removes the service provider (environment event: SP deleted by the operator).
+func (s *Store) UnregisterSP(entityID string) {
+	vhook.Point("env.UnregisterSP")
+	s.mu.Lock()
+	if sp, ok := s.sps[entityID]; ok {
+		delete(s.apps, sp.ID)
+	}
+	delete(s.sps, entityID)
+	s.mu.Unlock()
+}
+
 func (s *Store) AddUser(u *User) {
 	s.mu.Lock()
 	s.users[u.ID] = u
